@@ -1,7 +1,10 @@
 package main
 
 import (
+	"encoding/json"
 	"fmt"
+	"os"
+	"path/filepath"
 	"strings"
 
 	"verifharness/internal/cpuh"
@@ -388,14 +391,17 @@ func cpuCaseSet(r *prng.R, nativeOnly bool) []cpuCase {
 		perOp, perData, nProg, perEA = 4000, 4000, 200000, 300
 	}
 	nat := func(k, m int) bool { return nativeOnly || k%m != 0 }
+	// steering (VH_CPU_FOCUS, set by `check` from the routine fingerprints): opcodes whose routine's source differs from the
+	// version the model was validated against get a multiple of the budget; "all" = a shared helper changed
+	mult := focusMultipliers()
 	var cases []cpuCase
 	for op := 0; op < 256; op++ {
-		for k := 0; k < perOp; k++ {
+		for k := 0; k < perOp*mult[op]; k++ {
 			cases = append(cases, genCPUCase(r.Fork(), op, nat(k, 4)))
 		}
 	}
 	for op := 0; op < 256; op++ {
-		for k := 0; k < perData; k++ {
+		for k := 0; k < perData*mult[op]; k++ {
 			base := genCPUCase(r.Fork(), op, nat(k, 4))
 			base.steps = 1
 			if c, ok := genDataDirected(r.Fork(), base); ok {
@@ -407,13 +413,53 @@ func cpuCaseSet(r *prng.R, nativeOnly bool) []cpuCase {
 		cases = append(cases, genCPUCase(r.Fork(), -1, nat(k, 3)))
 	}
 	for op := 0; op < 256; op++ {
-		for k := 0; k < perEA; k++ {
+		for k := 0; k < perEA*mult[op]; k++ {
 			if c, ok := genExactEA(r.Fork(), op); ok {
 				cases = append(cases, c)
 			}
 		}
 	}
 	return cases
+}
+
+// focusMultipliers reads VH_CPU_FOCUS ("all" and/or op_* routine names) and the regenerated opcode -> routine tables
+func focusMultipliers() [256]int {
+	var m [256]int
+	for i := range m {
+		m[i] = 1
+	}
+	f := os.Getenv("VH_CPU_FOCUS")
+	if f == "" {
+		return m
+	}
+	want := map[string]bool{}
+	for _, x := range strings.Split(f, ",") {
+		if x != "" {
+			want[x] = true
+		}
+	}
+	if want["all"] {
+		for i := range m {
+			m[i] = 3
+		}
+	}
+	var fp struct {
+		P []string `json:"primary_optable"`
+		A []string `json:"alt_optable"`
+	}
+	path := os.Getenv("VH_CPU_FPRINTS")
+	if path == "" {
+		path = filepath.Join(filepath.Dir(filepath.Dir(filepath.Dir(filepath.Dir(modelDrv)))), "SnesVerif", "Gen", "CpuFingerprints.json")
+	}
+	if b, err := os.ReadFile(path); err == nil {
+		json.Unmarshal(b, &fp)
+	}
+	for op := 0; op < 256; op++ {
+		if (op < len(fp.P) && want[fp.P[op]]) || (op < len(fp.A) && want[fp.A[op]]) {
+			m[op] = 15
+		}
+	}
+	return m
 }
 
 func runCPU() {
